@@ -54,12 +54,13 @@ class Harness:
 
 
 def parse_kernel(path):
-    txt = open(path).read(); hs = []; tags = {'flags': [], 'models': [], 'noubsan': False, 'exttempl': True, 'unity': [], 'stubs': []}
+    txt = open(path).read(); hs = []; tags = {'flags': [], 'nflags': [], 'models': [], 'noubsan': False, 'exttempl': True, 'unity': [], 'stubs': []}
     for l in txt.split('\n'):
         m = re.match(r'\s*//@(\w+)\s*(.*)$', l)
         if not m: continue
         k, rest = m.group(1), m.group(2).strip()
         if k == 'flags': tags['flags'] += rest.split()
+        elif k == 'native_flags': tags['nflags'] += rest.split()  # extra flags for the native replay build only
         elif k == 'models': tags['models'] += rest.split()
         elif k == 'unity': tags['unity'] += rest.split()
         elif k == 'stub': tags['stubs'].append(rest.split())
@@ -117,7 +118,7 @@ def build_tu(path, tags, names, bdir):
         f.write('}\nextern verif_entry const verif_harnesses[];\nverif_entry const verif_harnesses[] = {\n')
         for n in names: f.write('  {"%s", &%s},\n' % (n, n))
         f.write('  {nullptr, nullptr}};\n')
-    gx = GXX_BASE + flags + [path, mainp, os.path.join(VERIF, 'replay', 'vrt.cpp'), '-o', binp, '-lpthread']
+    gx = GXX_BASE + flags + tags['nflags'] + [path, mainp, os.path.join(VERIF, 'replay', 'vrt.cpp'), '-o', binp, '-lpthread']
     return (cl, ll), (gx, binp)
 
 
